@@ -36,6 +36,13 @@ for _nm, _d in (('plc', ['-DVERIF_GAIN_PLC=1']), ('frame', [])):
             trusted=['exp() of libm (stub: records its argument, returns an arbitrary positive value)', 'ASSUMED frame contracts (stubs) of celt_decode_with_ec(_dred), opus_custom_decoder_ctl as in C01_decode_frame.c'],
             bounds='Fs = 8000, MDCT-only frame of %g ms without mode transition, %d channel(s), %s, any gain -32768..32767' % (_fr * 2.5, _ch, 'lost frame' if _nm == 'plc' else 'payload of 2-3 symbolic bytes'),
             what='decoder gain block of opus_decode_frame: applied iff gain != 0, factor exp(ln2*6.48814081e-4*g), every sample scaled, nothing else changed'))
+GROUPS.append(dict(name='decode_gain_plc_short_c2', cls='B', tu='C19_decode_gain.c', entry='h_decode_gain', dfcc=False, canary='real', expect_canaries=2,
+    defines=['-DVERIF_FS=8000', '-U__SSE__', '-DVERIF_MAXLEN=3', '-DVERIF_FIXED_PCM=1', '-DVERIF_CH=2', '-DVERIF_FRAME=2', '-DVERIF_GAIN_PLC=1', '-DVERIF_SHORT_REQ=1'], unwind=14,
+    unwind_src=[(r'i<(st->)?frame_size\*st->(stream_)?channels', 82), (r'i<audiosize\*st->channels', 82), (r'i<st->channels\*F2_5', 42), (r'i<F2_5|i<overlap', 22)], timeout=1800, mem_gb=16,
+    cex={'self': True}, functions=['opus_decode_frame'],
+    trusted=['exp() of libm (stub: records its argument, returns an arbitrary positive value)', 'ASSUMED frame contracts (stubs) of celt_decode_with_ec(_dred), opus_custom_decoder_ctl as in C01_decode_frame.c'],
+    bounds='Fs = 8000, stereo, lost frame: a 2.5 ms concealment request after 5 ms MDCT-only frames into a buffer of exactly 2.5 ms, any gain',
+    what='decoder gain block on a concealment request shorter than the remembered frame duration: every sample of the request scaled, nothing written beyond the exact-size buffer'))
 for _ch in (1, 2):
     GROUPS.append(dict(name='decode_gain_transition_c%d' % _ch, cls='B', tier='quick' if _ch == 1 else 'thorough', tu='C19_decode_gain.c', entry='h_decode_gain_transition', dfcc=False, canary='real', expect_canaries=2,
         defines=['-DVERIF_FS=8000', '-U__SSE__', '-DVERIF_MAXLEN=3', '-DVERIF_FIXED_PCM=1', '-DVERIF_CH=%d' % _ch, '-DVERIF_TOCF=4', '-DVERIF_BUF=80', '-DVERIF_FRAME=4'], unwind=14,
